@@ -1023,6 +1023,53 @@ def end_loop_findings(f):
                     skip_pol = has_continue(t)
                 if skip_pol is not None and not implies_identity(m["cond"], skip_pol):
                     fnd.append(("skip-without-identity", loc(m), "an end instruction is skipped at %s under a condition that does not compare the whole (instruction, operand) pair with the last instruction" % loc(m)))
+    # (c) "already present" must mean present in THIS root: the instruction compared with the entry is only looked at when the
+    #     root has emitted something - a comparison between the current instruction length and the length read when the root
+    #     was started controls the skip (in its condition, around it, or in the definition of a value it uses)
+    reads_stream = any(n.get("k") == "MethodCall" and n.get("m") in ("get_instruction_iter", "get_instruction") for n in walk(f["hir"]))
+    if loops and reads_stream:
+        def is_len(e):
+            return any(o.get("k") == "MethodCall" and o.get("m") == "get_instruction_len" for o in body_of.origins(e))
+        len_cmps = [n for n in walk(f["hir"]) if n.get("k") == "Binary" and n.get("op") in (">", ">=", "<", "<=", "!=", "==") and is_len(n["l"]) and is_len(n["r"])]
+        tied = False
+        for loop, arm, lids, pushes in loops:
+            # locals mentioned by the loop body, and transitively by their definitions
+            seen_l = set()
+            work_l = [x["lid"] for x in walk(arm["body"]) if x.get("k") == "Path" and x.get("res") == "local"]
+            exprs = [arm["body"]]
+            while work_l:
+                l_ = work_l.pop()
+                if l_ in seen_l:
+                    continue
+                seen_l.add(l_)
+                for d_ in body_of.defs.get(l_, []):
+                    if isinstance(d_, dict) and d_.get("k") not in ("Param", "ClosureParam", "Destructure", "Field"):
+                        exprs.append(d_)
+                        work_l.extend(x["lid"] for x in walk(d_) if x.get("k") == "Path" and x.get("res") == "local")
+            ids = set(id(x) for e_ in exprs for x in walk(e_))
+            if any(id(c) in ids for c in len_cmps):
+                tied = True
+            # an enclosing `if len > start { for .. }`
+            def encloses(n, target, under):
+                if n is target:
+                    return under
+                if isinstance(n, dict):
+                    u2 = under or (n.get("k") == "If" and any(id(c) in set(id(x) for x in walk(n["cond"])) for c in len_cmps))
+                    for v in n.values():
+                        if isinstance(v, (dict, list)):
+                            r_ = encloses(v, target, u2)
+                            if r_ is not None:
+                                return r_
+                elif isinstance(n, list):
+                    for x in n:
+                        r_ = encloses(x, target, under)
+                        if r_ is not None:
+                            return r_
+                return None
+            if encloses(f["hir"], loop, False):
+                tied = True
+        if not tied:
+            fnd.append(("skip-not-tied-to-this-root", loc(loops[0][0]), "an end instruction is skipped when it equals the last instruction of the whole stream, without checking that this root emitted anything (no comparison of the instruction length with the length at the root's start controls the skip): a root that emits nothing - `{ ( ) }` - loses its terminator and its jump-table entry points past the end"))
     return fnd, len(loops)
 
 
